@@ -108,6 +108,7 @@ def call_task(cname, datatype):
         stubs = model.estimator_stubs(dom)
         I = tc.interp(stubs=stubs)
         hints = {"cls": cname, "datatype": datatype, "op": "call", "case": "stale"}
+        tc.native = ("history", hints)
 
         def thunk(I):
             o1, sh = model.make_state(I, dom, cname, datatype, tag="1", cache="none")
@@ -276,6 +277,7 @@ def op_task(cname, datatype, op, case, arg=None):
         stubs = {CLASSES[cname]["q"] + ".__call__": model.call_contract(cname, datatype)}
         I = tc.interp(stubs=stubs)
         hints = {"cls": cname, "datatype": datatype, "op": op, "case": case, "arg": arg}
+        tc.native = ("history", hints)
 
         def thunk(I):
             o, sh = build_pre(I, dom, cname, datatype, case)
@@ -338,6 +340,7 @@ def init_task(cname, datatype, nfft_mode):
         dom = tc.smt()
         I = tc.interp()
         hints = {"cls": cname, "datatype": datatype, "op": "init", "case": nfft_mode}
+        tc.native = ("history", hints)
 
         def thunk(I):
             N = dom.input_int("N")
